@@ -6,6 +6,7 @@ require (
 	github.com/ali-assar/NATS-Leader-Election v0.0.0
 	github.com/nats-io/nats.go v1.47.0
 	github.com/prometheus/client_golang v1.23.2
+	go.uber.org/zap v1.27.1
 )
 
 require (
@@ -24,7 +25,6 @@ require (
 	github.com/prometheus/common v0.66.1 // indirect
 	github.com/prometheus/procfs v0.16.1 // indirect
 	go.uber.org/multierr v1.10.0 // indirect
-	go.uber.org/zap v1.27.1 // indirect
 	go.yaml.in/yaml/v2 v2.4.2 // indirect
 	golang.org/x/crypto v0.43.0 // indirect
 	golang.org/x/sys v0.38.0 // indirect
